@@ -44,6 +44,7 @@ type TxRecord struct {
 	Index    int       `json:"index"`
 	Deliver  *TxResult `json:"deliver,omitempty"`
 	Hash     string    `json:"hash"`
+	B        *Built    `json:"-"` // the concrete transaction (reference run only)
 }
 
 type BlockRecord struct {
@@ -296,7 +297,7 @@ func run(sc *Scenario, g *Genesis, ref *Transcript, o RunOpts) (*Transcript, err
 			var checked [][]byte
 			for _, st := range sb.Txs {
 				bt := g.Build(st.Req)
-				rec := TxRecord{Req: st.Req, Path: st.Path, Signed: bt.Signed, FeePay: bt.FeePay, Index: -1}
+				rec := TxRecord{Req: st.Req, Path: st.Path, Signed: bt.Signed, FeePay: bt.FeePay, Index: -1, B: bt}
 				rec.Req.Raw = nil
 				hs := sha256.Sum256(bt.Bytes)
 				rec.Hash = hex.EncodeToString(hs[:8])
